@@ -141,6 +141,7 @@ structure St where
   goalCfg : AList Str Int := []        -- `goalThroughputConfigs`
   insts : List Inst := []              -- the heap of dynsampler instances, `id` = index
   caches : AList (Nat × Str) Entry := []   -- (worker, sampler key) ↦ cached sampler (`datasetSamplers`)
+  fed : AList Nat Nat := []            -- instance ↦ events counted in its current window (the rate-tracking state)
   epoch : Nat := 0                     -- ghost
   deriving Repr
 
@@ -225,17 +226,32 @@ inductive Op where
   | setcfg (j : Nat)             -- rules file replaced by configuration `j`
   | clear                        -- `ClearDynsamplers`
   | wreload (w : Nat)            -- worker `w` handles its reload signal
+  | feed (w : Nat) (env : Str) (n : Nat)   -- worker `w` asks its sampler for `env` about `n` traces
   deriving DecidableEq, Repr
 
+/-- `makeDecision`'s sampler lookup: the cached sampler, else create it and cache it -/
+def stepGet (st : St) (w : Nat) (env : Str) : St :=
+  match AList.get st.caches (w, env) with
+  | some _ => st
+  | none =>
+    match getSampler st env with
+    | none => st
+    | some (st1, slots) =>
+      { st1 with caches := AList.put st1.caches (w, env) { slots := slots, epoch := st1.epoch } }
+
+/-- every dynsampler behind the sampler counts `n` more events -/
+def feedSlots (n : Nat) (fed : AList Nat Nat) (slots : List Slot) : AList Nat Nat :=
+  slots.foldl (fun f s => match s.id with
+    | some id => AList.put f id ((AList.get f id).getD 0 + n)
+    | none => f) fed
+
 def step (cfgs : List Config) (st : St) : Op → St
-  | .get w env =>
-    match AList.get st.caches (w, env) with
-    | some _ => st
-    | none =>
-      match getSampler st env with
-      | none => st
-      | some (st1, slots) =>
-        { st1 with caches := AList.put st1.caches (w, env) { slots := slots, epoch := st1.epoch } }
+  | .get w env => stepGet st w env
+  | .feed w env n =>
+    let st1 := stepGet st w env
+    match AList.get st1.caches (w, env) with
+    | some ent => { st1 with fed := feedSlots n st1.fed ent.slots }
+    | none => st1
   | .peers n => updatePeers { st with actual := some n }
   | .peersFail => updatePeers { st with actual := none }
   | .peerset n => { st with actual := some n }
@@ -264,8 +280,14 @@ def slotsOf (c : Config) (env : Str) : List (Str × Def) :=
   | some (.rules ds) => ds.map (fun d => (rulesPrefix env, d))
   | none => []
 
-/-- the sampler keys (environment names) a history asks for -/
-def OpsIn (E : Str → Prop) (ops : List Op) : Prop := ∀ w e, Op.get w e ∈ ops → E e
+/-- the sampler key an operation asks for, if any -/
+def Op.env? : Op → Option Str
+  | .get _ e => some e
+  | .feed _ e _ => some e
+  | _ => none
+
+/-- the sampler keys (environment names) a history asks for all satisfy `E` -/
+def OpsIn (E : Str → Prop) (ops : List Op) : Prop := ∀ op ∈ ops, ∀ e, op.env? = some e → E e
 
 /-- the peer count the property speaks of: the size of the most recent non-empty, successful
 membership answer (1 before any) -/
